@@ -3,8 +3,12 @@ import fcntl, json, os, re, shutil, subprocess, sys, time
 
 VERIF = os.path.dirname(os.path.dirname(os.path.abspath(__file__)))
 REPO = os.environ.get('VERIF_REPO', '/repo')
-LEAN = os.path.join(VERIF, 'lean')
-WORK_ROOT = os.path.join(VERIF, '.work')
+# VERIF_LEAN / VERIF_WORK: private copies used by tools/try_mutant.py so that a run against a changed copy of the
+# repository (VERIF_REPO) never touches the translated files, the build directory, the scratch space or the
+# evidence of the real checks
+LEAN = os.environ.get('VERIF_LEAN') or os.path.join(VERIF, 'lean')
+WORK_ROOT = os.environ.get('VERIF_WORK') or os.path.join(VERIF, '.work')
+EVIDENCE_DIR = os.path.join(VERIF, 'evidence') if REPO == '/repo' and not os.environ.get('VERIF_WORK') else os.path.join(WORK_ROOT, 'evidence')
 ALLOWED_AXIOMS = {'propext', 'Classical.choice', 'Quot.sound'}
 
 # ------------------------------------------------------------------ PRNG
@@ -69,7 +73,7 @@ def translate():
 class LakeLock:
     def __enter__(self):
         os.makedirs(WORK_ROOT, exist_ok=True)
-        self.f = open(os.path.join(WORK_ROOT, 'lake.lock'), 'w')
+        self.f = open(os.path.join(LEAN, '.lake-lock'), 'w')
         fcntl.flock(self.f, fcntl.LOCK_EX)
         return self
     def __exit__(self, *a):
@@ -264,9 +268,9 @@ def known_findings(prop):
 # ------------------------------------------------------------------ evidence
 
 def write_evidence(prop, tier, seed, coverage, wall, violations, assumptions):
-    os.makedirs(os.path.join(VERIF, 'evidence'), exist_ok=True)
+    os.makedirs(EVIDENCE_DIR, exist_ok=True)
     ev = {'property_id': prop, 'tier': tier, 'seed': seed, 'level': 'proof', 'coverage': coverage,
           'assumptions': assumptions, 'wall_s': round(wall, 2), 'violations': violations}
-    with open(os.path.join(VERIF, 'evidence', prop + '.json'), 'w') as f:
+    with open(os.path.join(EVIDENCE_DIR, prop + '.json'), 'w') as f:
         json.dump(ev, f, indent=1)
     return ev
